@@ -32,27 +32,31 @@ structure S3 where
   sys : Nat
   deriving Repr
 
+/-- the response checks of `send_cmd_recv_rsp` (`check_status=True`): minimum length 2 without IDm,
+12 with IDm and status flags (a two octet list has the minimum length 2 already) -/
+def checkRsp3 (code : Nat) (sendIdm : Bool) (idm rsp : Bytes) : Py Bytes :=
+  match rsp with
+  | r0 :: r1 :: rest =>
+    if (sendIdm ∧ rsp.length < 12) ∨ r0 ≠ rsp.length then .error (.tagCmd 1)
+    else if r1 ≠ code + 1 then .error (.tagCmd 2)
+    else if sendIdm ∧ sliceN rsp 2 10 ≠ idm then .error (.tagCmd 3)
+    else if ¬ sendIdm then .ok rest
+    else
+      match rsp[10]?, rsp[11]? with
+      | some a, some b => if a ≠ 0 then .error (.tagCmd (a * 256 + b : Nat)) else .ok (rsp.drop 12)
+      | _, _ => .error .index
+  | _ => .error (.tagCmd 1)
+
 /-- `Type3Tag.send_cmd_recv_rsp(code, data, timeout, send_idm, check_status=True)` -/
 def sendCmd3 (t : Tag) (code : Nat) (data : Bytes) (sendIdm : Bool) (s : S3) : Py Bytes × S3 :=
-  let idm := if sendIdm then s.idm else []
-  let l := 2 + idm.length + data.length
-  if l ≥ 256 ∨ code ≥ 256 then (.error .value, s)      -- bytearray([l, code])
+  if 2 + (if sendIdm then s.idm else []).length + data.length ≥ 256 ∨ code ≥ 256 then (.error .value, s)  -- bytearray([l, code])
   else
-    match trx t 3 s.w ([l, code] ++ idm ++ data) with
-    | (none, w') => (.error (.tagCmd 0), { s with w := w' })
-    | (some rsp, w') =>
-      let s' := { s with w := w' }
-      match rsp with
-      | r0 :: r1 :: rest =>
-        if rsp.length < (if sendIdm then 12 else 2) ∨ r0 ≠ rsp.length then (.error (.tagCmd 1), s')
-        else if r1 ≠ code + 1 then (.error (.tagCmd 2), s')
-        else if sendIdm ∧ sliceN rsp 2 10 ≠ s.idm then (.error (.tagCmd 3), s')
-        else if ¬ sendIdm then (.ok rest, s')
-        else
-          match rsp[10]?, rsp[11]? with
-          | some a, some b => if a ≠ 0 then (.error (.tagCmd (a * 256 + b : Nat)), s') else (.ok (rsp.drop 12), s')
-          | _, _ => (.error .index, s')
-      | _ => (.error (.tagCmd 1), s')
+    ((match (trx t 3 s.w ([2 + (if sendIdm then s.idm else []).length + data.length, code] ++
+          (if sendIdm then s.idm else []) ++ data)).1 with
+      | none => .error (.tagCmd 0)
+      | some rsp => checkRsp3 code sendIdm s.idm rsp),
+     { s with w := (trx t 3 s.w ([2 + (if sendIdm then s.idm else []).length + data.length, code] ++
+          (if sendIdm then s.idm else []) ++ data)).2 })
 
 /-- `polling(0x12FC)` + the assignments of `_read_ndef_data` -/
 def polling3 (t : Tag) (s : S3) : Py Unit × S3 :=
@@ -362,33 +366,31 @@ def versionMap : List (Bytes × String) :=
    ([0x00, 0x04, 0x04, 0x05, 0x02, 0x01, 0x13, 0x03], "NT3H1101"),
    ([0x00, 0x04, 0x04, 0x05, 0x02, 0x01, 0x15, 0x03], "NT3H1201")]
 
-/-- `tt2_nxp.activate`: `some cls` or `none` -/
+/-- `rsp.startswith(b"\xAF")` for the answer (if any) to the authenticate probe -/
+def isAF : Option Bytes → Bool
+  | some (0xAF :: _) => true
+  | _ => false
+
+/-- `tt2_nxp.activate`: `some cls` or `none`.  Authenticate probe `1A 00`, sense, GET_VERSION `60`,
+sense only after a missing or `00` answer -/
 def activateNxp (t : Tag) (w : W) : Option String × W :=
-  -- authenticate probe 1A 00
-  let (a, w1) := xchg t w [0x1A, 0x00]
-  let (sn, w2) := xchg t w1 []
-  match sn with
+  let w1 := (xchg t w [0x1A, 0x00]).2
+  let w2 := (xchg t w1 []).2
+  match (xchg t w1 []).1 with
   | none => (none, w2)
   | some _ =>
-    if (match a with | some (0xAF :: _) => true | _ => false) then (some "MifareUltralightC", w2)
+    if isAF (xchg t w [0x1A, 0x00]).1 then (some "MifareUltralightC", w2)
     else
-      -- GET_VERSION
-      let (v, w3) := xchg t w2 [0x60]
-      match v with
+      let w3 := (xchg t w2 [0x60]).2
+      match (xchg t w2 [0x60]).1 with
       | none =>
-        let (sn2, w4) := xchg t w3 []
-        match sn2 with
-        | none => (none, w4)
-        | some _ => (some "MifareUltralight", w4)
+        ((match (xchg t w3 []).1 with | none => none | some _ => some "MifareUltralight"), (xchg t w3 []).2)
       | some rsp =>
         match versionMap.lookup rsp with
         | some c => (some c, w3)
         | none =>
           if rsp = [0x00] then
-            let (sn2, w4) := xchg t w3 []
-            match sn2 with
-            | none => (none, w4)
-            | some _ => (some "NTAG203", w4)
+            ((match (xchg t w3 []).1 with | none => none | some _ => some "NTAG203"), (xchg t w3 []).2)
           else (none, w3)
 
 def sonyClass (ic : Nat) : Option String :=
